@@ -19,6 +19,7 @@ RULE = ("requests `hash D` (SipHash-2-4 with fixed keys of the Decimal), `hashpa
         "Non-trivial = scale > 0 and gcd(coefficient, 10^scale) > 1, or several representations of one value")
 BUILDS = {"quick": [("dev", ()), ("release", ())],
           "thorough": [("dev", ()), ("release", ()), ("release", ("packed",)), ("o0-nochk", ())]}
+MODE_INDEPENDENT = True      # half of every batch runs under a non-default thread rounding mode
 REQUIRED_SITES = {"gcd.loop": 1000}
 BUDGET = {"quick": 15, "thorough": 200}
 N_RANDOM = {"quick": 3000, "thorough": 12000}
